@@ -24,6 +24,7 @@ import pickle
 import types
 
 import gymnasium as gym
+import jax
 import numpy as np
 
 from vlib import senv
@@ -45,6 +46,7 @@ K_LIVELOCK = "scheduler-loops-without-progress"
 K_STEP_AFTER_END = "stepped-after-episode-end"
 K_PROTOCOL = "select/feedback-not-alternating"
 K_CRASH = "scheduler-raised"
+K_WARM = "parameter-update-before-warm-up"
 FROM_TRAINER = "-from-trainer-counter"  # suffix: consequence of a wrong counter returned by train_st
 
 RULE = RULE_SCHED = (
@@ -143,6 +145,10 @@ def sched_items(tier, seed):
                         selector=name, hp=[hp[0], g, hp[2]], arms=3, rounds=700 if tier == "quick" else 1500,
                     )
                 )
+        # more arms than half the 250-round window: the initial phase alone is longer than the window
+        hp = hps[0]
+        out.append(dict(kind="sched-long", name=f"sched-long-{_slug(name)}-126arms", selector=name, hp=list(hp), arms=126,
+                        rounds=(2 if name == "DUCB" else 3) * 126 + (40 if tier == "quick" else 110)))
     return out
 
 
@@ -439,6 +445,7 @@ def work_long(item, col):
         if not apply_feedback(it, col, obj, ref, arm, long_reward(arm, t, n)):
             return
     col.outcome("sched_long_trace_rounds", item["rounds"])
+    col.sample(dict(selector=name, arms=n, hp=hp, long_trace_rounds=item["rounds"], last_selections=[int(a) for a in ref.plays[-8:]] if hasattr(ref, "plays") else None))
 
 
 class _Null:
@@ -674,6 +681,13 @@ def mt_items(tier, seed):
                                     add("smt", trainer, n_tasks, container, si=si, K=K, mode=mode, kappa=kappa, sub=1)
                                 else:
                                     add("smt", trainer, n_tasks, container, si=si, K=K, mode=mode, kappa=kappa)
+    # --- finite warm-up across several scheduling intervals (real backbones) ----------------------
+    for algo in ["uts", "amt", "smt"]:
+        for trainer in (["td3"] if quick else ["ddpg", "td3", "sac"]):
+            for si in [1, 2]:
+                out.append(dict(kind="mt-" + algo, name=f"mt-{algo}-{trainer}-warm-si{si}", algo=algo, trainer=trainer, si=si, seed=seed,
+                                lengths=[[1, 2], [2, 2], [2, 3], [3, 3]] if quick else [[1, 1], [1, 2], [2, 2], [2, 3], [3, 3], [1, 2, 3], [2, 2, 2]],
+                                warms=[4, 5, 6, 7, 8] if quick else [3, 4, 5, 6, 7, 8, 9]))
     return out
 
 
@@ -825,10 +839,10 @@ def run_one(item, col, lengths, budget_cfg):
         col.sample(dict(entry=entry, config=cfg, executed_per_task=per_task, training_steps=totals, calls=[(c["start"], c["executed"], c["returned"]) for c in probe.calls]))
 
 
-def _call_uts(task_set, train_st, budget, si, seed):
+def _call_uts(task_set, train_st, budget, si, seed, warm=10**6):
     from rl_blox.algorithm.uniform_task_sampling import train_uts
 
-    return train_uts(task_set, train_st, total_timesteps=budget, episodes_per_task=si, seed=seed, exploring_starts=10**6, progress_bar=False)
+    return train_uts(task_set, train_st, total_timesteps=budget, episodes_per_task=si, seed=seed, exploring_starts=warm, progress_bar=False)
 
 
 def _mt_buffer(n_tasks):
@@ -837,7 +851,7 @@ def _mt_buffer(n_tasks):
     return MultiTaskReplayBuffer(ReplayBuffer(buffer_size=64), n_tasks)
 
 
-def _call_amt(task_set, train_st, budget, si, sel, n_tasks, seed, rec_log):
+def _call_amt(task_set, train_st, budget, si, sel, n_tasks, seed, rec_log, warm=10**6):
     from rl_blox.algorithm import active_mt
 
     cls, kw = active_mt.TASK_SELECTORS[sel]
@@ -858,14 +872,14 @@ def _call_amt(task_set, train_st, budget, si, sel, n_tasks, seed, rec_log):
     try:
         res = active_mt.train_active_mt(
             task_set, train_st, _mt_buffer(n_tasks), r_max=4.0, ducb_gamma=0.9, xi=0.3, task_selector=sel,
-            total_timesteps=budget, scheduling_interval=si, learning_starts=10**6, seed=seed, progress_bar=False,
+            total_timesteps=budget, scheduling_interval=si, learning_starts=warm, seed=seed, progress_bar=False,
         )
     finally:
         active_mt.TASK_SELECTORS[sel] = old
     return res[0], res[1]
 
 
-def _call_smt(task_set, train_st, split, si, item, n_tasks, seed):
+def _call_smt(task_set, train_st, split, si, item, n_tasks, seed, warm=10**6):
     import warnings
 
     from rl_blox.algorithm.smt import train_smt
@@ -876,12 +890,74 @@ def _call_smt(task_set, train_st, split, si, item, n_tasks, seed):
         res = train_smt(
             task_set, train_st, _mt_buffer(n_tasks), b1=split[0], b2=split[1], solved_threshold=solved,
             unsolvable_threshold=unsolv, scheduling_interval=si, kappa=item["kappa"], K=item["K"], n_average=2,
-            learning_starts=10**6, seed=seed, progress_bar=False,
+            learning_starts=warm, seed=seed, progress_bar=False,
         )
     return res[0], res[1]
 
 
+def _param_bytes(fn):
+    from flax import nnx
+
+    out = []
+    for k in sorted(fn.keywords):
+        v = fn.keywords[k]
+        if isinstance(v, nnx.Module):
+            out.append(b"".join(np.asarray(x).tobytes() for x in jax.tree_util.tree_leaves(nnx.state(v, nnx.Param))))
+    return b"|".join(out)
+
+
+def work_mt_warm(item, col):
+    """Finite warm-up spanning several scheduling intervals, real backbone: a trainer call that ends before the warm-up
+    threshold (every one of its steps s has s + 1 < warm-up) must leave the learned parameters bit-identical."""
+    algo, trainer, si, seed = item["algo"], item["trainer"], item["si"], item["seed"]
+    entry = {"uts": "train_uts", "amt": "train_active_mt", "smt": "train_smt"}[algo] + f"({TRAINER_LABEL[trainer]})"
+    for lengths, warm in itertools.product(item["lengths"], item["warms"]):
+        n_tasks = len(lengths)
+        kinds = ["T" if (i + seed) % 2 else "U" for i in range(n_tasks)]
+        budget = 10
+        guard = StepGuard(2 * budget + 8)
+        task_set, envs, counts, stray = build_tasks("vec", lengths, kinds, guard)
+        fn = real_trainer(trainer, task_set.envs[0])
+        calls = []
+
+        def probe(*a, _fn=fn, _calls=calls, **kw):
+            jax.effects_barrier()
+            before = _param_bytes(_fn)
+            res = _fn(*a, **kw)
+            jax.effects_barrier()
+            _calls.append(dict(start=int(kw.get("global_step", 0)), returned=int(res.global_step), learning_starts=int(kw.get("learning_starts", -1)),
+                               changed=_param_bytes(_fn) != before))
+            return res
+
+        cfg = dict(lengths=list(lengths), ends=kinds, budget=budget, scheduling_interval=si, warm_up=warm)
+        err = None
+        try:
+            with contextlib.redirect_stdout(io.StringIO()):
+                if algo == "uts":
+                    _call_uts(task_set, probe, budget, si, 1 + seed, warm=warm)
+                elif algo == "amt":
+                    _call_amt(task_set, probe, budget, si, "Round Robin", n_tasks, seed, [], warm=warm)
+                else:
+                    _call_smt(task_set, probe, (6, 4), si, dict(mode="main", kappa=0.8, K=1), n_tasks, seed, warm=warm)
+        except Exception as e:  # noqa: BLE001 - budget / episode discipline is decided by the other mt items
+            err = repr(e)[:200]
+        inside = [c for c in calls if c["returned"] <= warm - 1]
+        col.tick(len(calls), (algo, trainer, tuple(lengths), warm, si) if len(inside) >= 2 else None)
+        if err is not None:
+            col.outcome("mt_warm_runs_aborted")
+            continue
+        col.outcome("mt_warm_calls_entirely_inside_warm_up", len(inside))
+        if any(c["changed"] for c in calls if c["returned"] > warm):
+            col.outcome("mt_warm_runs_where_a_later_call_did_learn")
+        bad = [c for c in inside if c["changed"]]
+        if bad:
+            col.violation(SIG.format(entry, K_WARM), dict(config=cfg, trainer_calls=calls[:12], first_early_update_call=bad[0]))
+    col.sample(dict(entry=entry, kind="finite warm-up across scheduling intervals", lengths=item["lengths"], warm_ups=item["warms"]))
+
+
 def work_mt(item, col):
+    if item.get("warms"):
+        return work_mt_warm(item, col)
     quick_splits = SMT_SPLITS_QUICK
     if item["algo"] == "smt":
         budgets = quick_splits + (SMT_SPLITS_MORE if item.get("more") else [])
